@@ -207,60 +207,74 @@ Fixpoint read_string (s : str) (acc : str) : str * ast :=
   end.
 
 (* ---------------------------------------------------------------- lexer: kg_read / read_list *)
-Fixpoint kg_read (fuel : nat) (read_neg ign : bool) (s : str) {struct fuel} : res (str * ast) :=
-  match fuel with
-  | O => OOF
-  | S f =>
-      let* s1 := skip f ign s in
-      match s1 with
-      | [] => Ok (s1, ANone)
-      | a0 :: r =>
-          let a := if a0 =? 10 then 59 else a0 in
-          if z_in a (delims E) then Ok (r, AStr [a])
-          else if starts2 s1 48 99 then read_char s1
-          else if isnumeric E a || (read_neg && (a =? 45) && match r with d :: _ => isnumeric E d | [] => false end)
-          then read_num s1
-          else if a =? 34 then Ok (read_string r [])
-          else
-            match (if a =? 58 then r else []) with
-            | aa :: r2 =>
-                if isalpha E aa || (aa =? 46) then Ok (read_sym r)
-                else if isnumeric E aa || (aa =? 34) then kg_read f false ign r
-                else if aa =? 123 then
-                  let* (s2, d) := read_list f 125 r2 in
-                  let* kv := map_res dict_entry d in
-                  Ok (s2, ADict kv)
-                else if aa =? 91 then Ok (r2, AStr [58; 91])
-                else if aa =? 124 then Ok (r2, AStr [58; 124])
-                else Ok (r2, AOp [58; aa] 0)
-            | [] =>
-                if a =? 91 then
-                  let* (s2, l) := read_list f 93 r in Ok (s2, AList l)
-                else if is_symbolic a then Ok (read_sym s1)
-                else Ok (read_op s1)
-            end
-      end
-  end
-with read_list (fuel : nat) (delim : Z) (s : str) {struct fuel} : res (str * list ast) :=
-  match fuel with
-  | O => OOF
-  | S f =>
-      let* s1 := skip f true s in
-      read_list_loop f delim s1 []
-  end
-with read_list_loop (fuel : nat) (delim : Z) (s : str) (acc : list ast) {struct fuel} : res (str * list ast) :=
-  match fuel with
-  | O => OOF
-  | S f =>
-      if starts1 s delim || match s with [] => true | _ => false end
-      then Ok (if starts1 s delim then tl s else s, rev acc)
+(* kg_read, read_list and read_list's loop call each other; they are written as bodies over the
+   record of their own previous-fuel versions (`R`), and `lex_iter` ties the knot by recursion on fuel:
+   kg_read (S f) = kg_read_body f (the functions at fuel f). *)
+Record lexfuns := {
+  l_kg_read : bool -> bool -> str -> res (str * ast);
+  l_read_list : Z -> str -> res (str * list ast);
+  l_read_list_loop : Z -> str -> list ast -> res (str * list ast)
+}.
+
+Definition kg_read_body (f : nat) (R : lexfuns) (read_neg ign : bool) (s : str) : res (str * ast) :=
+  let* s1 := skip f ign s in
+  match s1 with
+  | [] => Ok (s1, ANone)
+  | a0 :: r =>
+      let a := if a0 =? 10 then 59 else a0 in
+      if z_in a (delims E) then Ok (r, AStr [a])
+      else if starts2 s1 48 99 then read_char s1
+      else if isnumeric E a || (read_neg && (a =? 45) && match r with d :: _ => isnumeric E d | [] => false end)
+      then read_num s1
+      else if a =? 34 then Ok (read_string r [])
       else
-        let* (s1, q) := kg_read f true true s in
-        if is_none q then Ok (if starts1 s1 delim then tl s1 else s1, rev acc)
-        else
-          let* s3 := skip f true s1 in
-          read_list_loop f delim s3 (q :: acc)
+        match (if a =? 58 then r else []) with
+        | aa :: r2 =>
+            if isalpha E aa || (aa =? 46) then Ok (read_sym r)
+            else if isnumeric E aa || (aa =? 34) then l_kg_read R false ign r
+            else if aa =? 123 then
+              let* (s2, d) := l_read_list R 125 r2 in
+              let* kv := map_res dict_entry d in
+              Ok (s2, ADict kv)
+            else if aa =? 91 then Ok (r2, AStr [58; 91])
+            else if aa =? 124 then Ok (r2, AStr [58; 124])
+            else Ok (r2, AOp [58; aa] 0)
+        | [] =>
+            if a =? 91 then
+              let* (s2, l) := l_read_list R 93 r in Ok (s2, AList l)
+            else if is_symbolic a then Ok (read_sym s1)
+            else Ok (read_op s1)
+        end
   end.
+
+Definition read_list_body (f : nat) (R : lexfuns) (delim : Z) (s : str) : res (str * list ast) :=
+  let* s1 := skip f true s in
+  l_read_list_loop R delim s1 [].
+
+Definition read_list_loop_body (f : nat) (R : lexfuns) (delim : Z) (s : str) (acc : list ast) : res (str * list ast) :=
+  if starts1 s delim || match s with [] => true | _ => false end
+  then Ok (if starts1 s delim then tl s else s, rev acc)
+  else
+    let* (s1, q) := l_kg_read R true true s in
+    if is_none q then Ok (if starts1 s1 delim then tl s1 else s1, rev acc)
+    else
+      let* s3 := skip f true s1 in
+      l_read_list_loop R delim s3 (q :: acc).
+
+Definition lex_bottom : lexfuns := {|
+  l_kg_read := fun _ _ _ => OOF; l_read_list := fun _ _ => OOF; l_read_list_loop := fun _ _ _ => OOF |}.
+
+Fixpoint lex_iter (fuel : nat) : lexfuns :=
+  match fuel with
+  | O => lex_bottom
+  | S f => let R := lex_iter f in
+           {| l_kg_read := kg_read_body f R; l_read_list := read_list_body f R;
+              l_read_list_loop := read_list_loop_body f R |}
+  end.
+
+Definition kg_read (fuel : nat) := l_kg_read (lex_iter fuel).
+Definition read_list (fuel : nat) := l_read_list (lex_iter fuel).
+Definition read_list_loop (fuel : nat) := l_read_list_loop (lex_iter fuel).
 
 (* ---------------------------------------------------------------- .comment *)
 Fixpoint find_sub (a s : str) : option nat :=
@@ -350,176 +364,191 @@ Definition get_fn_arity (f : ast) : res nat :=
 Definition dot_comment : str := [46; 99; 111; 109; 109; 101; 110; 116].
 Definition dot_module : str := [46; 109; 111; 100; 117; 108; 101].
 
-Fixpoint prog_loop (fuel : nat) (ign : bool) (s : str) (acc : list ast) {struct fuel} : res (str * list ast) :=
-  match fuel with
-  | O => OOF
-  | S f =>
-      match s with
-      | [] => Ok (s, rev acc)
-      | _ :: _ =>
-          let* (s1, q) := expr f ign s in
-          if is_none q || str_is q [59] then prog_loop f ign s1 acc
-          else
-            let* (ii, c) := kg_read f false ign s1 in
-            if str_is c [59] then prog_loop f ign ii (q :: acc) else Ok (s1, rev (q :: acc))
-      end
-  end
-with expr (fuel : nat) (ign : bool) (s : str) {struct fuel} : res (str * ast) :=
-  match fuel with
-  | O => OOF
-  | S f =>
-      let* (s1, a) := factor f ign s in
-      if is_none a || str_is a [59] then Ok (s1, a)
+(* The parser functions call each other; same construction as for the lexer: bodies over the
+   record `R` of the functions at the previous fuel; `f` is that fuel, handed to the lexer. *)
+Record parsefuns := {
+  p_prog_loop : bool -> str -> list ast -> res (str * list ast);
+  p_expr : bool -> str -> res (str * ast);
+  p_expr_loop : bool -> str -> ast -> str -> ast -> res (str * ast);
+  p_fn_lit : str -> res (str * ast);
+  p_factor : bool -> str -> res (str * ast);
+  p_apply_adverbs : str -> ast -> str -> nat -> bool -> ast -> res (str * ast);
+  p_read_fn_args : str -> res (str * list ast);
+  p_fn_args_loop : str -> str -> list ast -> res (str * list ast);
+  p_read_cond : str -> res (str * ast);
+  p_expr_array_loop : str -> list ast -> res (str * list ast)
+}.
+
+(* KlongInterpreter.prog: the while loop *)
+Definition prog_loop_body (f : nat) (R : parsefuns) (ign : bool) (s : str) (acc : list ast) : res (str * list ast) :=
+  match s with
+  | [] => Ok (s, rev acc)
+  | _ :: _ =>
+      let* (s1, q) := p_expr R ign s in
+      if is_none q || str_is q [59] then p_prog_loop R ign s1 acc
       else
-        let* (ii, aa) := kg_read f false ign s1 in
-        expr_loop f ign s1 a ii (mark_dyad aa)
-  end
-with expr_loop (fuel : nat) (ign : bool) (i : str) (a : ast) (ii : str) (aa : ast) {struct fuel} : res (str * ast) :=
-  match fuel with
-  | O => OOF
-  | S f =>
-      if is_op aa || is_sym aa || str_is aa [123] then
-        let* (i1, aa1) :=
-          if str_is aa [123] then fn_lit f ii
-          else if is_sym aa && starts_call ii then
-            let* (i2, fa) := read_fn_args f ii in Ok (i2, mk_call aa fa (length fa))
-          else Ok (ii, aa) in
-        let '(i3, adv) := peek_adverb i1 in
-        let* (i4, a1) :=
-          match adv with
-          | Some av => apply_adverbs f i3 aa1 av 2%nat true a
-          | None => let* (i5, aaa) := expr f ign i1 in Ok (i5, AFn aa1 (APy [a; aaa]) 2)
-          end in
-        let* (ii2, aa2) := kg_read f false ign i4 in
-        expr_loop f ign i4 a1 ii2 aa2
-      else if ign && str_is a [10] then let* i1 := skip f true i in Ok (i1, a)
-      else Ok (i, a)
-  end
-(* the text after '{' up to the KGFn/KGCall built from it (same code in _factor and _expr) *)
-with fn_lit (fuel : nat) (s : str) {struct fuel} : res (str * ast) :=
-  match fuel with
-  | O => OOF
-  | S f =>
-      let* (s2, p) := prog_loop f true s [] in
-      let a1 := match p with [x] => x | _ => APy p end in
-      let* s3 := skip f true s2 in
-      let* s4 := cexpect s3 125 in
-      let* ar := get_fn_arity a1 in
-      if starts_call s4 then
-        let* (s5, fa) := read_fn_args f s4 in Ok (s5, mk_call a1 fa ar)
-      else Ok (s4, AFn a1 ANone ar)
-  end
-with factor (fuel : nat) (ign : bool) (s : str) {struct fuel} : res (str * ast) :=
-  match fuel with
-  | O => OOF
-  | S f =>
-      let adverb_tail := fun (s0 : str) (a0 : ast) =>
-        let '(i3, adv) := peek_adverb s0 in
-        match adv with
-        | Some av => apply_adverbs f i3 a0 av 1%nat false ANone
-        | None => Ok (s0, a0)
-        end in
-      let* ii := skip f ign s in
-      if starts2 ii 91 59 then
-        let* s0 := skip f true (tl (tl ii)) in
-        let* (s1, ex) := expr_array_loop f s0 [] in Ok (s1, AExprArr ex)
-      else
-        let* (s1, a) := kg_read f false ign s in
-        if is_none a then Ok (s1, a)
-        else if str_is a [123] then
-          let* (s2, a2) := fn_lit f s1 in adverb_tail s2 a2
-        else if is_sym a then
-          if starts_call s1 then
-            let* (s2, fa) := read_fn_args f s1 in
-            let a2 := mk_call a fa (length fa) in
-            if sym_is a dot_comment then
-              let* m := comment_marker fa in
-              let* s3 := read_sys_comment f s2 m in
-              factor f ign s3
-            else
-              let* _ := (if sym_is a dot_module
-                         then match fa with [] => Err EIndex | _ :: _ => Ok tt end else Ok tt) in
-              adverb_tail s2 a2
-          else adverb_tail s1 a
-        else if is_monad_op a then
-          let a1 := set_arity a 1 in
-          let '(i3, adv) := peek_adverb s1 in
-          match adv with
-          | Some av => apply_adverbs f i3 a1 av 1%nat false ANone
-          | None => let* (s2, aa) := expr f ign s1 in Ok (s2, AFn a1 aa 1)
-          end
-        else if str_is a [40] then
-          let* (s2, a2) := expr f ign s1 in
-          let* s3 := cexpect s2 41 in Ok (s3, a2)
-        else if str_is a [58; 91] then read_cond f s1
-        else Ok (s1, a)
-  end
-with apply_adverbs (fuel : nat) (s : str) (a : ast) (aa : str) (arity : nat) (dyad : bool) (dv : ast)
-       {struct fuel} : res (str * ast) :=
-  match fuel with
-  | O => OOF
-  | S f =>
-      let aa_ar := adverb_arity E aa arity in
-      let '(s1, more) := peek_more s in
-      let arr := AAdverb (set_arity a aa_ar) aa_ar :: AAdverb (AStr aa) arity
-                 :: map (fun x => AAdverb (AStr x) 1) more in
-      let* (s2, e) := expr f false s1 in
-      Ok (s2, ACall (APy (arr ++ [if dyad then APy [dv; e] else e])) ANone (if dyad then 2 else 1)%nat)
-  end
-with read_fn_args (fuel : nat) (s : str) {struct fuel} : res (str * list ast) :=
-  match fuel with
-  | O => OOF
-  | S f =>
-      let* s1 := (if starts1 s 40 then Ok (tl s) else if starts2 s 58 40 then Ok (tl (tl s)) else Err EChar) in
-      if starts1 s1 41 then Ok (tl s1, [])
-      else fn_args_loop f s1 s1 []
-  end
-with fn_args_loop (fuel : nat) (s k : str) (acc : list ast) {struct fuel} : res (str * list ast) :=
-  match fuel with
-  | O => OOF
-  | S f =>
-      let* (ii, c) := kg_read f false true s in
-      let adj := Nat.eqb (length k) (S (length ii)) in
-      if str_is c [59] then fn_args_loop f ii ii (if adj then ANone :: acc else acc)
-      else if str_is c [41] then
-        let* s' := cexpect s 41 in Ok (s', rev (if adj then ANone :: acc else acc))
-      else
-        let* (s1, a) := expr f true s in
-        if is_none a then let* s' := cexpect s1 41 in Ok (s', rev acc)
-        else fn_args_loop f s1 k (a :: acc)
-  end
-with read_cond (fuel : nat) (s : str) {struct fuel} : res (str * ast) :=
-  match fuel with
-  | O => OOF
-  | S f =>
-      let* (s1, n1) := expr f true s in
-      let* s2 := cexpect s1 59 in
-      let* (s3, n2) := expr f true s2 in
-      let* s4 := skip f true s3 in
-      if starts2 s4 58 124 then
-        let* (s5, n3) := read_cond f (tl (tl s4)) in Ok (s5, ACond [n1; n2; n3])
-      else
-        let* s5 := cexpect s4 59 in
-        let* (s6, n3) := expr f true s5 in
-        let* s7 := skip f true s6 in
-        let* s8 := cexpect s7 93 in
-        Ok (s8, ACond [n1; n2; n3])
-  end
-with expr_array_loop (fuel : nat) (s : str) (acc : list ast) {struct fuel} : res (str * list ast) :=
-  match fuel with
-  | O => OOF
-  | S f =>
-      if starts1 s 93 || match s with [] => true | _ => false end
-      then Ok (if starts1 s 93 then tl s else s, rev acc)
-      else
-        let* (s1, e) := expr f true s in
-        let acc' := if is_none e then acc else e :: acc in
-        let* s2 := skip f true s1 in
-        if starts1 s2 59 then
-          let* s3 := skip f true (tl s2) in expr_array_loop f s3 acc'
-        else if starts1 s2 93 then Ok (tl s2, rev acc')
-        else expr_array_loop f s2 acc'
+        let* (ii, c) := kg_read f false ign s1 in
+        if str_is c [59] then p_prog_loop R ign ii (q :: acc) else Ok (s1, rev (q :: acc))
   end.
+
+(* KlongInterpreter._expr up to its while loop *)
+Definition expr_body (f : nat) (R : parsefuns) (ign : bool) (s : str) : res (str * ast) :=
+  let* (s1, a) := p_factor R ign s in
+  if is_none a || str_is a [59] then Ok (s1, a)
+  else
+    let* (ii, aa) := kg_read f false ign s1 in
+    p_expr_loop R ign s1 a ii (mark_dyad aa).
+
+(* the while loop of _expr: i, a = current position and left operand; (ii, aa) = the token peeked at i *)
+Definition expr_loop_body (f : nat) (R : parsefuns) (ign : bool) (i : str) (a : ast) (ii : str) (aa : ast) : res (str * ast) :=
+  if is_op aa || is_sym aa || str_is aa [123] then
+    let* (i1, aa1) :=
+      if str_is aa [123] then p_fn_lit R ii
+      else if is_sym aa && starts_call ii then
+        let* (i2, fa) := p_read_fn_args R ii in Ok (i2, mk_call aa fa (length fa))
+      else Ok (ii, aa) in
+    let '(i3, adv) := peek_adverb i1 in
+    let* (i4, a1) :=
+      match adv with
+      | Some av => p_apply_adverbs R i3 aa1 av 2%nat true a
+      | None => let* (i5, aaa) := p_expr R ign i1 in Ok (i5, AFn aa1 (APy [a; aaa]) 2)
+      end in
+    let* (ii2, aa2) := kg_read f false ign i4 in
+    p_expr_loop R ign i4 a1 ii2 aa2
+  else if ign && str_is a [10] then let* i1 := skip f true i in Ok (i1, a)
+  else Ok (i, a).
+
+(* the text after '{' up to the KGFn/KGCall built from it (same code in _factor and _expr) *)
+Definition fn_lit_body (f : nat) (R : parsefuns) (s : str) : res (str * ast) :=
+  let* (s2, p) := p_prog_loop R true s [] in
+  let a1 := match p with [x] => x | _ => APy p end in
+  let* s3 := skip f true s2 in
+  let* s4 := cexpect s3 125 in
+  let* ar := get_fn_arity a1 in
+  if starts_call s4 then
+    let* (s5, fa) := p_read_fn_args R s4 in Ok (s5, mk_call a1 fa ar)
+  else Ok (s4, AFn a1 ANone ar).
+
+(* `ii, aa = peek_adverb(t, i); if aa: i, a = self._apply_adverbs(t, ii, a, aa, arity=1)` *)
+Definition adverb_tail (R : parsefuns) (s0 : str) (a0 : ast) : res (str * ast) :=
+  let '(i3, adv) := peek_adverb s0 in
+  match adv with
+  | Some av => p_apply_adverbs R i3 a0 av 1%nat false ANone
+  | None => Ok (s0, a0)
+  end.
+
+(* KlongInterpreter._factor *)
+Definition factor_body (f : nat) (R : parsefuns) (ign : bool) (s : str) : res (str * ast) :=
+  let* ii := skip f ign s in
+  if starts2 ii 91 59 then
+    let* s0 := skip f true (tl (tl ii)) in
+    let* (s1, ex) := p_expr_array_loop R s0 [] in Ok (s1, AExprArr ex)
+  else
+    let* (s1, a) := kg_read f false ign s in
+    if is_none a then Ok (s1, a)
+    else if str_is a [123] then
+      let* (s2, a2) := p_fn_lit R s1 in adverb_tail R s2 a2
+    else if is_sym a then
+      if starts_call s1 then
+        let* (s2, fa) := p_read_fn_args R s1 in
+        let a2 := mk_call a fa (length fa) in
+        if sym_is a dot_comment then
+          let* m := comment_marker fa in
+          let* s3 := read_sys_comment f s2 m in
+          p_factor R ign s3
+        else
+          let* _ := (if sym_is a dot_module
+                     then match fa with [] => Err EIndex | _ :: _ => Ok tt end else Ok tt) in
+          adverb_tail R s2 a2
+      else adverb_tail R s1 a
+    else if is_monad_op a then
+      let a1 := set_arity a 1 in
+      let '(i3, adv) := peek_adverb s1 in
+      match adv with
+      | Some av => p_apply_adverbs R i3 a1 av 1%nat false ANone
+      | None => let* (s2, aa) := p_expr R ign s1 in Ok (s2, AFn a1 aa 1)
+      end
+    else if str_is a [40] then
+      let* (s2, a2) := p_expr R ign s1 in
+      let* s3 := cexpect s2 41 in Ok (s3, a2)
+    else if str_is a [58; 91] then p_read_cond R s1
+    else Ok (s1, a).
+
+(* KlongInterpreter._apply_adverbs *)
+Definition apply_adverbs_body (f : nat) (R : parsefuns) (s : str) (a : ast) (aa : str) (arity : nat) (dyad : bool) (dv : ast)
+  : res (str * ast) :=
+  let aa_ar := adverb_arity E aa arity in
+  let '(s1, more) := peek_more s in
+  let arr := AAdverb (set_arity a aa_ar) aa_ar :: AAdverb (AStr aa) arity
+             :: map (fun x => AAdverb (AStr x) 1) more in
+  let* (s2, e) := p_expr R false s1 in
+  Ok (s2, ACall (APy (arr ++ [if dyad then APy [dv; e] else e])) ANone (if dyad then 2 else 1)%nat).
+
+(* KlongInterpreter._read_fn_args up to its while loop *)
+Definition read_fn_args_body (f : nat) (R : parsefuns) (s : str) : res (str * list ast) :=
+  let* s1 := (if starts1 s 40 then Ok (tl s) else if starts2 s 58 40 then Ok (tl (tl s)) else Err EChar) in
+  if starts1 s1 41 then Ok (tl s1, [])
+  else p_fn_args_loop R s1 s1 [].
+
+(* the `while True` of _read_fn_args; k = position after '(' or after the last ';' *)
+Definition fn_args_loop_body (f : nat) (R : parsefuns) (s k : str) (acc : list ast) : res (str * list ast) :=
+  let* (ii, c) := kg_read f false true s in
+  let adj := Nat.eqb (length k) (S (length ii)) in
+  if str_is c [59] then p_fn_args_loop R ii ii (if adj then ANone :: acc else acc)
+  else if str_is c [41] then
+    let* s' := cexpect s 41 in Ok (s', rev (if adj then ANone :: acc else acc))
+  else
+    let* (s1, a) := p_expr R true s in
+    if is_none a then let* s' := cexpect s1 41 in Ok (s', rev acc)
+    else p_fn_args_loop R s1 k (a :: acc).
+
+(* parser.read_cond *)
+Definition read_cond_body (f : nat) (R : parsefuns) (s : str) : res (str * ast) :=
+  let* (s1, n1) := p_expr R true s in
+  let* s2 := cexpect s1 59 in
+  let* (s3, n2) := p_expr R true s2 in
+  let* s4 := skip f true s3 in
+  if starts2 s4 58 124 then
+    let* (s5, n3) := p_read_cond R (tl (tl s4)) in Ok (s5, ACond [n1; n2; n3])
+  else
+    let* s5 := cexpect s4 59 in
+    let* (s6, n3) := p_expr R true s5 in
+    let* s7 := skip f true s6 in
+    let* s8 := cexpect s7 93 in
+    Ok (s8, ACond [n1; n2; n3]).
+
+(* the while loop of parser.read_expr_array *)
+Definition expr_array_loop_body (f : nat) (R : parsefuns) (s : str) (acc : list ast) : res (str * list ast) :=
+  if starts1 s 93 || match s with [] => true | _ => false end
+  then Ok (if starts1 s 93 then tl s else s, rev acc)
+  else
+    let* (s1, e) := p_expr R true s in
+    let acc' := if is_none e then acc else e :: acc in
+    let* s2 := skip f true s1 in
+    if starts1 s2 59 then
+      let* s3 := skip f true (tl s2) in p_expr_array_loop R s3 acc'
+    else if starts1 s2 93 then Ok (tl s2, rev acc')
+    else p_expr_array_loop R s2 acc'.
+
+Definition parse_bottom : parsefuns := {|
+  p_prog_loop := fun _ _ _ => OOF; p_expr := fun _ _ => OOF; p_expr_loop := fun _ _ _ _ _ => OOF;
+  p_fn_lit := fun _ => OOF; p_factor := fun _ _ => OOF; p_apply_adverbs := fun _ _ _ _ _ _ => OOF;
+  p_read_fn_args := fun _ => OOF; p_fn_args_loop := fun _ _ _ => OOF; p_read_cond := fun _ => OOF;
+  p_expr_array_loop := fun _ _ => OOF |}.
+
+Fixpoint parse_iter (fuel : nat) : parsefuns :=
+  match fuel with
+  | O => parse_bottom
+  | S f => let R := parse_iter f in
+           {| p_prog_loop := prog_loop_body f R; p_expr := expr_body f R; p_expr_loop := expr_loop_body f R;
+              p_fn_lit := fn_lit_body f R; p_factor := factor_body f R; p_apply_adverbs := apply_adverbs_body f R;
+              p_read_fn_args := read_fn_args_body f R; p_fn_args_loop := fn_args_loop_body f R;
+              p_read_cond := read_cond_body f R; p_expr_array_loop := expr_array_loop_body f R |}
+  end.
+
+Definition prog_loop (fuel : nat) := p_prog_loop (parse_iter fuel).
+Definition expr (fuel : nat) := p_expr (parse_iter fuel).
+Definition factor (fuel : nat) := p_factor (parse_iter fuel).
 
 (* KlongInterpreter.prog(t) *)
 Definition prog (fuel : nat) (t : str) : res (str * list ast) := prog_loop fuel false t [].
